@@ -158,13 +158,12 @@ def retainedUpTo (f : Files) : Nat → Bytes
   | m+1 => content f (m+1) ++ retainedUpTo f m
 def retained (cfg : Cfg) (f : Files) : Bytes := retainedUpTo f cfg.maxBackups
 
-/-- run-length encoding, used to print a file -/
-def rle : Bytes → List (Nat × Nat)
-  | [] => []
-  | x :: t =>
-    match rle t with
-    | (y, n) :: r => if x = y then (y, n + 1) :: r else (x, 1) :: (y, n) :: r
-    | [] => [(x, 1)]
+/-- run-length encoding, used to print a file (accumulator version: files of 10 MiB occur with the default MaxSize) -/
+def rleAux : Bytes → List (Nat × Nat) → List (Nat × Nat)
+  | [], acc => acc.reverse
+  | x :: t, [] => rleAux t [(x, 1)]
+  | x :: t, (y, n) :: r => if x = y then rleAux t ((y, n + 1) :: r) else rleAux t ((x, 1) :: (y, n) :: r)
+def rle (b : Bytes) : List (Nat × Nat) := rleAux b []
 
 /-- representation change for the interpreter (a closure chain would be re-evaluated on every lookup): the directory
     on indexes `< n` as an array, and back (`Lemmas.Rotation.ofArray_toArray`) -/
